@@ -271,6 +271,32 @@ fn excluded_file_cases() -> (u64, Vec<Violation>) {
             }
         }
     }
+    // directory names with dots, patterns that leave the working directory: the rule runs exactly on the files the pattern names
+    let dotted_tree: &[(&str, &str)] = &[("src/v1./c.lua", "-- c\nreturn 1\n"), ("src/v1x.lua", "-- c\nreturn 2\n"), ("src/.hidden/d.lua", "-- c\nreturn 3\n"), ("src/a..b/e.lua", "-- c\nreturn 4\n")];
+    for pattern in ["src/v1./*.lua", "src/v1*.lua", "src/.hidden/*.lua", "src/a..b/**", "../src/*.lua", "src/*/../v1x.lua", "./src/v1./c.lua", "src/v1./c.lua"] {
+        for key in ["apply_to_files", "skip_files"] {
+            n += 1;
+            let config = format!("{{rules: [{{rule: 'remove_comments', {}: '{}'}}]}}", key, pattern);
+            if let Ok((r, errors)) = dl::process_memory(dotted_tree, &config, "src", Some("out")) {
+                if !errors.is_empty() {
+                    continue; // a refused pattern is an answer
+                }
+                let normalized = pattern.trim_start_matches("./");
+                for (path, _) in dotted_tree {
+                    let matches = glob_match(normalized, path);
+                    let rule_runs = if key == "apply_to_files" { matches } else { !matches };
+                    let out = r.get(path.replacen("src/", "out/", 1)).unwrap_or_default();
+                    if out.contains("-- c") == rule_runs {
+                        violations.push(Violation {
+                            finding: None,
+                            summary: format!("`{}: {}`: remove_comments {} run on {} (output {:?})", key, pattern, if rule_runs { "must" } else { "must not" }, path, out),
+                            replay: json!({"kind": "dotted names", "key": key, "pattern": pattern, "path": path}),
+                        });
+                    }
+                }
+            }
+        }
+    }
     (n, violations)
 }
 
@@ -300,6 +326,12 @@ pub fn run(tier: Tier) -> Report {
     let mut lists: Vec<Vec<&'static str>> = vec![vec![]];
     for p in PATTERNS {
         lists.push(vec![*p]);
+    }
+    // a few lists of two patterns in the quick tier too (any of them selects)
+    if tier == Tier::Quick {
+        for pair in [["src/*.lua", "src/lib/**"], ["**/a.lua", "*.luau"], ["src/lib/a.lua", "src/b.luau"], ["nothing", "**/c.lua"]] {
+            lists.push(pair.to_vec());
+        }
     }
     if tier == Tier::Thorough {
         for (i, a) in PATTERNS.iter().enumerate() {
